@@ -51,7 +51,11 @@ def reachable(n, edges, roots):
     return seen
 
 
-def build(shape, names, edge_ctx, root_site, root_ctx, split=None, enum_leaf=False, decoys=True, extra_root=None, err_type=None):
+DERIVE_STYLES = ['Debug, Clone, Serialize, Deserialize', 'Debug, Clone, serde::Serialize, serde::Deserialize', 'Clone, ::serde::Serialize, ::serde::Deserialize',
+                 'Serialize', 'Debug, serde::Deserialize']
+
+
+def build(shape, names, edge_ctx, root_site, root_ctx, split=None, enum_leaf=False, decoys=True, extra_root=None, err_type=None, derive_style=0, styled_node=1):
     """-> (files dict, expected reachable names list, all node names)
     edge_ctx: dict (src,dst) -> ctx name (default '-'); split: set of node indexes placed in a second file"""
     n, edges = SHAPES[shape]
@@ -63,10 +67,11 @@ def build(shape, names, edge_ctx, root_site, root_ctx, split=None, enum_leaf=Fal
         for k, (a, b) in enumerate(edges):
             if a == i:
                 fields.append('    pub e%d: %s,' % (k, ctx_type(edge_ctx.get((a, b), '-'), names[b])))
+        dv = DERIVE_STYLES[derive_style] if i == min(styled_node, n - 1) else DERIVE_STYLES[0]
         if enum_leaf and i in sinks and i != 0:
-            text = '#[derive(Debug, Clone, Serialize, Deserialize)]\npub enum %s { One, Two }\n' % names[i]
+            text = '#[derive(%s)]\npub enum %s { One, Two }\n' % (dv, names[i])
         else:
-            text = '#[derive(Debug, Clone, Serialize, Deserialize)]\npub struct %s {\n    pub id: i32,\n%s\n}\n' % (names[i], '\n'.join(fields))
+            text = '#[derive(%s)]\npub struct %s {\n    pub id: i32,\n%s\n}\n' % (dv, names[i], '\n'.join(fields))
         decl[1 if i in split else 0].append(text)
     main = C.HEADER + ''.join(decl[0])
     if decoys:
